@@ -64,22 +64,30 @@ def waiting (st : St) : Nat := tsum Task.waitingTok st
 
 def scriptsRunning (st : St) : Nat := tsum Task.scriptRunning st
 
-/-- invariant of the non-recursive job server semaphore with `n` tokens in total -/
+/-- invariant of the job server semaphore; `n` = tokens that circulate (pipe, `__tokens`, child makes).
+In recursive mode the first owner runs on the implicit slot of the parent `make`. -/
 def semInv (n : Nat) (s : JobSem.St) : Bool :=
   s.pipe + s.tokens + s.envHeld == n &&
-  s.tokens == s.acquired + inflight s.sem.waiters + s.sem.value &&
+  s.tokens + (if s.recursive && decide (0 < s.acquired) then 1 else 0) == s.acquired &&
   s.waitersCnt == notDone s.sem.waiters &&
   s.sem.value == 0 &&
-  (s.reader == decide (s.waitersCnt > 0))
+  (s.reader == decide (s.waitersCnt > 0)) &&
+  (!s.recursive || s.waitersCnt == 0 || decide (0 < s.acquired))
 
-/-- the job slot accounting of a configuration: `n` = number of jobs -/
+/-- the job slot accounting of a configuration: `n` = number of circulating tokens resp. the bound -/
 def tokInv (n : Nat) (st : St) : Bool :=
   st.tasks.all Task.wf &&
   match st.runners with
-  | .job s => (s.recursive || semInv n s) && s.acquired == holders st && s.sem.waiters.length == waiting st
+  | .job s => semInv n s && s.acquired == holders st + inflight s.sem.waiters && s.sem.waiters.length == waiting st
   | .bounded s b => b == n && s.value + holders st + inflight s.waiters == b && s.waiters.length == waiting st
 
-def runningBound (n : Nat) (st : St) : Bool := scriptsRunning st ≤ n
+/-- number of job slots: tokens plus the implicit slot in recursive mode -/
+def capacity (n : Nat) (st : St) : Nat :=
+  match st.runners with
+  | .job s => if s.recursive then n + 1 else n
+  | .bounded _ b => b
+
+def runningBound (n : Nat) (st : St) : Bool := scriptsRunning st ≤ capacity n st
 
 /-! ### workspace locks -/
 
@@ -192,13 +200,13 @@ def allDone (st : St) : Bool := st.tasks.all Task.done
 def terminalInv (n : Nat) (st : St) : Bool :=
   !allDone st ||
   (match st.runners with
-   | .job s => s.recursive || (s.acquired == 0 && s.tokens == 0 && s.pipe + s.envHeld == n)
+   | .job s => s.acquired == 0 && s.tokens == 0 && s.pipe + s.envHeld == n
    | .bounded s b => s.value == b) &&
   st.locks.all fun (_, l) => !l.locked && l.waiters.isEmpty
 
 def checkAll (P : Project) (cfg : Cfg) (n : Nat) (st : St) : List String :=
   (if tokInv n st then [] else ["tokInv"]) ++
-  (if (match st.runners with | .job s => s.recursive | _ => false) || runningBound n st then [] else ["runningBound"]) ++
+  (if runningBound n st then [] else ["runningBound"]) ++
   (if lockInv P st then [] else ["lockInv"]) ++
   (if onceLegal P st then [] else ["onceLegal"]) ++
   (if depsFirst P st then [] else ["depsFirst"]) ++
